@@ -243,6 +243,36 @@ impl Content {
 		txs
 	}
 
+	/// Remove explicit keys completely (counting columns: one dereference per reference held).
+	/// Returns the transactions.
+	pub fn explicit_removes(&mut self, c: usize, keys: &[Vec<u8>]) -> Vec<Vec<DbOp>> {
+		let mut txs: Vec<Vec<DbOp>> = vec![vec![]];
+		for k in keys {
+			match &mut self.data[c] {
+				ColData::Kv(m) => {
+					if m.remove(k).is_some() {
+						self.removed[c].insert(k.clone());
+						txs[0].push((c as u8, Operation::Dereference(k.clone())));
+					}
+				},
+				ColData::Rc(m) => {
+					if let Some((_, n)) = m.remove(k) {
+						self.removed[c].insert(k.clone());
+						for r in 0..n as usize {
+							while txs.len() <= r {
+								txs.push(vec![]);
+							}
+							txs[r].push((c as u8, Operation::Dereference(k.clone())));
+						}
+					}
+				},
+				ColData::Trees(_) => {},
+			}
+		}
+		txs.retain(|t| !t.is_empty());
+		txs
+	}
+
 	pub fn describe(&self) -> String {
 		self.opts
 			.iter()
